@@ -40,7 +40,7 @@ def run(ctx):
         own += sum(1 for r in rows if r["op"] == "mine")
         if len(samples) < 3:
             samples += [{k: r[k] for k in ("op", "b", "of", "mutation", "accepted", "image_unchanged")} for r in rows if r["op"] == "tamper"][:3]
-    if offered < 30:
+    if offered < 30 and not ctx.violations:   # a node that refuses its own blocks (reported above) offers nothing to tamper with
         raise Broken("only %d mutants offered" % offered)
     na = sorted({m for (m, res_) in kinds if res_ == "not-applicable"} - {m for (m, res_) in kinds if res_ != "not-applicable"})
     cov.update(traces_validated_against_impl=validated, mutants_offered=offered, own_blocks_appended=own,
